@@ -40,6 +40,9 @@ type c14Case struct {
 	NoFinal bool     // no newline after the last line
 	CRLF    bool
 	JSON    []string // the rendered JSON document, line by line
+	// ViaLink: the @file paths go through a symbolic link and "..", i.e. dir/ln/../bodyN with ln -> real/sub
+	// names dir/real/bodyN (while a lexically "cleaned" dir/bodyN is another file)
+	ViaLink bool `json:",omitempty"`
 }
 
 func c14Defaults(c c14Case) http.Header {
@@ -228,10 +231,25 @@ func runC14(c c14Case) error {
 		return err
 	}
 	defer os.RemoveAll(dir)
+	bodyDir, refDir := dir, dir
+	if c.ViaLink {
+		bodyDir, refDir = filepath.Join(dir, "real"), dir+"/ln/.." // (spelled out: filepath.Join would clean it)
+		if err := os.MkdirAll(filepath.Join(dir, "real", "sub"), 0o755); err != nil {
+			return err
+		}
+		if err := os.Symlink(filepath.Join("real", "sub"), filepath.Join(dir, "ln")); err != nil {
+			return err
+		}
+	}
 	for i, t := range c.Targets {
 		if t.HasBody {
-			if err := os.WriteFile(filepath.Join(dir, fmt.Sprintf("body%d", i)), t.Body, 0o644); err != nil {
+			if err := os.WriteFile(filepath.Join(bodyDir, fmt.Sprintf("body%d", i)), t.Body, 0o644); err != nil {
 				return err
+			}
+			if c.ViaLink {
+				if err := os.WriteFile(filepath.Join(dir, fmt.Sprintf("body%d", i)), []byte("another file"), 0o644); err != nil {
+					return err
+				}
 			}
 		}
 	}
@@ -240,7 +258,7 @@ func runC14(c c14Case) error {
 	for i, l := range c.Lines {
 		tl := strings.TrimSpace(l)
 		if strings.HasPrefix(tl, "@") {
-			l = strings.Replace(l, tl, "@"+filepath.Join(dir, "body"+tl[1:]), 1)
+			l = strings.Replace(l, tl, "@"+refDir+string(filepath.Separator)+"body"+tl[1:], 1) // (not Join: it would clean the path)
 		}
 		lines[i] = l
 	}
@@ -265,6 +283,42 @@ func runC14(c c14Case) error {
 		return vegeta.NewJSONTargeter(strings.NewReader(jdoc), b, h)
 	}, nil); err != nil {
 		return fmt.Errorf("%v\n--- document ---\n%s", err, jdoc)
+	}
+	// a targeter that has reported exhaustion keeps doing so, also when another targeter is made and used afterwards
+	for _, format := range []string{"json", "http"} {
+		text := jdoc
+		mkT := func(b []byte, h http.Header) vegeta.Targeter {
+			return vegeta.NewJSONTargeter(strings.NewReader(text), b, h)
+		}
+		if format == "http" {
+			text = doc
+			mkT = func(b []byte, h http.Header) vegeta.Targeter {
+				return vegeta.NewHTTPTargeter(strings.NewReader(text), b, h)
+			}
+		}
+		first := mkT(nil, nil)
+		for i := 0; i <= len(c.Targets)+1; i++ {
+			var t vegeta.Target
+			if err := first(&t); err == vegeta.ErrNoTargets {
+				break
+			}
+		}
+		var staleErr error
+		if err := c14Drain(c, format, func(b []byte, h http.Header) vegeta.Targeter {
+			second := mkT(b, h)
+			return func(t *vegeta.Target) error {
+				var x vegeta.Target
+				if err := first(&x); err != vegeta.ErrNoTargets && staleErr == nil {
+					staleErr = fmt.Errorf("%s: a targeter that had reported exhaustion returned (%v, %+v) after a second targeter was made", format, err, x)
+				}
+				return second(t)
+			}
+		}, nil); err != nil {
+			return fmt.Errorf("second targeter, used while an exhausted first one is still being called: %v", err)
+		}
+		if staleErr != nil {
+			return staleErr
+		}
 	}
 	// JSON target encoder round trip (no defaults)
 	var buf bytes.Buffer
@@ -495,6 +549,7 @@ func c14Gen(t *rapid.T) (c c14Case, commentsAfterReq int) {
 		c.NoFinal = rapid.Bool().Draw(t, "nofinal")
 	}
 	c.CRLF = rapid.IntRange(0, 3).Draw(t, "crlf") == 0
+	c.ViaLink = rapid.IntRange(0, 2).Draw(t, "vialink") == 0
 	// ---- JSON rendering: one object per line, fields in drawn order, blank lines in between
 	for i, tg := range c.Targets {
 		if rapid.IntRange(0, 4).Draw(t, fmt.Sprintf("jblank%d", i)) == 0 {
